@@ -16,7 +16,9 @@ RULE = ('(a) bounded-exhaustive token soups over the LaTeX-significant alphabet 
         '(b) fault injection: for each Hypothesis-generated well-formed document (verbatim-free '
         'grammar), every lexical token boundary outside comments x every fault token in '
         '{ {, }, $, \\(, \\), \\[, \\], \\begin{x}, \\end{x}, \\begin{itemize}, \\end{itemize} } is '
-        'inserted and the result must raise LatexWalkerParseError. Non-trivial = (a) soups '
+        'inserted and the result must raise LatexWalkerParseError; (c) thorough tier: atheris '
+        'campaigns with oracle (a) inside the target. Walker line/column offsets are varied per '
+        'input (checksum-chosen) in (a). Non-trivial = (a) soups '
         'containing >= 1 structural token (distinct by construction), (b) every injected case '
         '(distinct by (document, offset, fault)).')
 ASSUMPTIONS = [
